@@ -33,6 +33,7 @@ var (
 	fBatch    = flag.Int("sim.batch", 0, "first batch index")
 	fN        = flag.Int("sim.n", 100, "number of seeds (digest mode)")
 	fReplays  = flag.String("sim.replaydir", "", "directory for replay files")
+	fDigest   = flag.Bool("sim.digest", false, "print one event-log digest per seed instead of checking (determinism self-test)")
 )
 
 type KnownFinding struct {
@@ -134,10 +135,22 @@ type ReplayFile struct {
 	RapidSeed uint64    `json:"rapid_seed"`
 	Engine    string    `json:"engine"`
 	Tool      string    `json:"tool"`
-	Input     *Input    `json:"input"`
+	Input     *Input    `json:"input,omitempty"`
+	Locker    *LockerIn `json:"locker_input,omitempty"`
+	Diff      *DiffIn   `json:"diff_input,omitempty"`
 	Digest    string    `json:"expected_event_log_digest"`
 	Trace     []string  `json:"trace"`
-	Locker    *LockerIn `json:"locker_input,omitempty"`
+}
+
+// engine abstracts over the three simulations (ledger, locker, differential preview).
+type engine struct {
+	name       string
+	gen        func(rt *rapid.T, batch int) any
+	run        func(t *testing.T, in any, keep bool) *Result
+	nontrivial func(res *Result) bool
+	sample     func(in any, res *Result) any
+	profName   func(batch int) string
+	fill       func(rf *ReplayFile, in any)
 }
 
 type WorkerOut struct {
@@ -275,7 +288,7 @@ func writeJSON(path string, v any) {
 	}
 }
 
-func harnessExit(out *WorkerOut, msg string, in *Input) {
+func harnessExit(out *WorkerOut, msg string, in any) {
 	out.HarnessErr = msg
 	if *fReplays != "" && in != nil {
 		p := fmt.Sprintf("%s/harness-%s-w%d-%d.json", *fReplays, *fProp, *fWorker, time.Now().UnixNano())
@@ -300,9 +313,7 @@ func applyMask(p Profile, known []KnownFinding, prop string) Profile {
 	return p
 }
 
-func runBatch(t *testing.T) {
-	prop := *fProp
-	known := loadKnown(*fKnown)
+func ledgerEngine(prop string, known []KnownFinding) *engine {
 	var profs []Profile
 	for _, n := range strings.Split(*fProfiles, ",") {
 		p, ok := profiles[strings.TrimSpace(n)]
@@ -315,6 +326,78 @@ func runBatch(t *testing.T) {
 		}
 		profs = append(profs, p)
 	}
+	return &engine{
+		name: "ledger-sim",
+		gen:  func(rt *rapid.T, batch int) any { return GenInput(rt, &profs[batch%len(profs)]) },
+		run: func(t *testing.T, in any, keep bool) *Result {
+			return Run(t, in.(*Input), prop, keep)
+		},
+		nontrivial: func(res *Result) bool { return nontrivial(prop, res) },
+		sample:     func(in any, res *Result) any { return sampleOf(in.(*Input), res) },
+		profName:   func(batch int) string { return profs[batch%len(profs)].Name },
+		fill:       func(rf *ReplayFile, in any) { rf.Input = in.(*Input) },
+	}
+}
+
+func lockerEngine() *engine {
+	return &engine{
+		name: "locker-sim",
+		gen:  func(rt *rapid.T, batch int) any { return GenLockerIn(rt) },
+		run: func(t *testing.T, in any, keep bool) *Result {
+			return RunLocker(t, in.(*LockerIn), keep)
+		},
+		nontrivial: func(res *Result) bool { return res.Counters["probe.lock-queued"] > 0 },
+		sample: func(in any, res *Result) any {
+			return map[string]any{"input": in, "steps": res.Steps, "preemptions": res.Preempts, "counters": res.Counters, "trace_digest": res.Digest[:16]}
+		},
+		profName: func(int) string { return "locker" },
+		fill:     func(rf *ReplayFile, in any) { rf.Locker = in.(*LockerIn) },
+	}
+}
+
+func diffEngine() *engine {
+	return &engine{
+		name: "diff-sim",
+		gen:  func(rt *rapid.T, batch int) any { return GenDiffIn(rt) },
+		run: func(t *testing.T, in any, keep bool) *Result {
+			return RunDiff(t, in.(*DiffIn), keep)
+		},
+		nontrivial: func(res *Result) bool { return res.Counters["probe.preview-answered"] > 0 },
+		sample: func(in any, res *Result) any {
+			d := in.(*DiffIn)
+			var ops []string
+			for _, g := range d.Plus.Gens {
+				for _, o := range g.Clients[0] {
+					ops = append(ops, o.Tag+": "+o.Summary())
+				}
+			}
+			return map[string]any{"history_with_previews": ops, "faults": d.Plus.Faults, "store_faults": d.Plus.SFaults, "steps_both_runs": res.Steps, "trace_digest": res.Digest[:16]}
+		},
+		profName: func(int) string { return "preview-diff" },
+		fill:     func(rf *ReplayFile, in any) { rf.Diff = in.(*DiffIn) },
+	}
+}
+
+func runDiff(t *testing.T) {
+	// the differential engine and, every other batch, the concurrent invariant form
+	if *fWorker%4 == 3 {
+		*fProfiles = "preview"
+		runEngine(t, ledgerEngine(*fProp, loadKnown(*fKnown)))
+		return
+	}
+	runEngine(t, diffEngine())
+}
+
+func runBatch(t *testing.T)       { runEngine(t, ledgerEngine(*fProp, loadKnown(*fKnown))) }
+func runLockerBatch(t *testing.T) { runEngine(t, lockerEngine()) }
+
+func runEngine(t *testing.T, eng *engine) {
+	prop := *fProp
+	known := loadKnown(*fKnown)
+	if *fDigest {
+		engineDigest(t, eng)
+		return
+	}
 	out := &WorkerOut{Property: prop, Worker: *fWorker, Seed: *fSeed, Counters: map[string]int{}, PerProfile: map[string]int{}, Known: map[string]int{}, KnownReplay: map[string]string{}}
 	hashes := map[string]struct{}{}
 	states := map[string]struct{}{}
@@ -322,47 +405,49 @@ func runBatch(t *testing.T) {
 	deadline := start.Add(*fBudget)
 	_ = flag.Set("rapid.nofailfile", "true")
 	_ = flag.Set("rapid.checks", "100")
-	_ = flag.Set("rapid.shrinktime", "25s")
+	_ = flag.Set("rapid.shrinktime", "20s")
 
 	batch := *fBatch
 	var fail struct {
-		in   *Input
+		in   any
 		v    Violation
 		seed uint64
 	}
 	shrinkSig := ""
 	for time.Now().Before(deadline) && out.Runs < *fMaxRuns && fail.in == nil {
-		prof := profs[batch%len(profs)]
 		rseed := deriveSeed(*fSeed, *fWorker, batch, 0)
 		_ = flag.Set("rapid.seed", fmt.Sprint(rseed))
 		tb := &recTB{}
 		shrinkSig = ""
+		b := batch
 		rapid.Check(tb, func(rt *rapid.T) {
-			in := GenInput(rt, &prof)
-			res := Run(t, in, prop, false)
+			in := eng.gen(rt, b)
+			res := eng.run(t, in, false)
 			if res.HarnessErr != "" {
 				harnessExit(out, res.HarnessErr, in)
 			}
 			if shrinkSig == "" {
 				out.Runs++
-				out.PerProfile[prof.Name]++
+				out.PerProfile[eng.profName(b)]++
 				out.Steps += int64(res.Steps)
 				out.Preempts += int64(res.Preempts)
 				out.SimTimeUs += res.SimTime.Microseconds()
 				for k, v := range res.Counters {
 					out.Counters[k] += v
 				}
-				states[res.StateHash] = struct{}{}
-				if nontrivial(prop, res) {
+				if res.StateHash != "" {
+					states[res.StateHash] = struct{}{}
+				}
+				if eng.nontrivial(res) {
 					out.Nontrivial++
 					hashes[res.Digest[:16]] = struct{}{}
 					if len(out.Samples) < 3 {
-						out.Samples = append(out.Samples, sampleOf(in, res))
+						out.Samples = append(out.Samples, eng.sample(in, res))
 					}
 				}
 				// continuous determinism re-check on a sample of runs
 				if out.Runs%64 == 1 {
-					again := Run(t, in, prop, false)
+					again := eng.run(t, in, false)
 					out.DetChecks++
 					if again.Digest != res.Digest {
 						harnessExit(out, "non-deterministic replay of the same input inside one process (event-log digests differ)", in)
@@ -380,7 +465,7 @@ func runBatch(t *testing.T) {
 						key := v.Sig()
 						out.Known[key]++
 						if _, ok := out.KnownReplay[key]; !ok && *fReplays != "" {
-							out.KnownReplay[key] = writeReplay(t, in, v, rseed, true)
+							out.KnownReplay[key] = writeReplay(t, eng, in, v, rseed, true)
 						}
 					}
 					continue
@@ -407,7 +492,7 @@ func runBatch(t *testing.T) {
 	if fail.in != nil {
 		v := fail.v
 		out.Violation = &v
-		out.Replay = writeReplay(t, fail.in, fail.v, fail.seed, false)
+		out.Replay = writeReplay(t, eng, fail.in, fail.v, fail.seed, false)
 	}
 	if *fOut != "" {
 		writeJSON(*fOut, out)
@@ -423,10 +508,28 @@ func runBatch(t *testing.T) {
 	}
 }
 
-func writeReplay(t *testing.T, in *Input, v Violation, rseed uint64, knownFinding bool) string {
-	res := Run(t, in, v.Prop, true)
+// engineDigest prints one digest line per seed (cross-process determinism self-test).
+func engineDigest(t *testing.T, eng *engine) {
+	_ = flag.Set("rapid.nofailfile", "true")
+	_ = flag.Set("rapid.checks", "1")
+	for i := 0; i < *fN; i++ {
+		rseed := deriveSeed(*fSeed, 0, i, 7)
+		_ = flag.Set("rapid.seed", fmt.Sprint(rseed))
+		tb := &recTB{}
+		i := i
+		rapid.Check(tb, func(rt *rapid.T) {
+			in := eng.gen(rt, i)
+			res := eng.run(t, in, false)
+			fmt.Printf("%d %s %s steps=%d err=%q\n", i, eng.profName(i), res.Digest, res.Steps, res.HarnessErr)
+		})
+	}
+}
+
+func writeReplay(t *testing.T, eng *engine, in any, v Violation, rseed uint64, knownFinding bool) string {
+	res := eng.run(t, in, true)
 	rf := &ReplayFile{Property: v.Prop, Class: v.Class, Detail: v.Detail, Features: v.Features, Seed: *fSeed, RapidSeed: rseed,
-		Engine: "ledger-sim", Tool: "verifsim/synctest go1.26.8 rapid v1.3.0", Input: in, Digest: res.Digest, Trace: res.Lines}
+		Engine: eng.name, Tool: "verifsim/synctest go1.26.8 rapid v1.3.0", Digest: res.Digest, Trace: res.Lines}
+	eng.fill(rf, in)
 	for _, x := range res.Violations {
 		if x.Prop == v.Prop && x.Class == v.Class {
 			rf.Detail = x.Detail
@@ -460,14 +563,18 @@ func runReplay(t *testing.T) {
 		os.Exit(2)
 	}
 	if rf.Engine == "locker-sim" {
-		replayLocker(t, &rf)
+		finishReplay(&rf, RunLocker(t, rf.Locker, true), nil)
 		return
 	}
 	if rf.Engine == "diff-sim" {
-		replayDiff(t, &rf)
+		finishReplay(&rf, RunDiff(t, rf.Diff, true), nil)
 		return
 	}
 	res := Run(t, rf.Input, rf.Property, true)
+	finishReplay(&rf, res, res.Media)
+}
+
+func finishReplay(rf *ReplayFile, res *Result, media []*Medium) {
 	for _, l := range res.Lines {
 		fmt.Println(l)
 	}
@@ -475,7 +582,7 @@ func runReplay(t *testing.T) {
 		fmt.Printf("HARNESS: %s\n", res.HarnessErr)
 		os.Exit(2)
 	}
-	for _, m := range res.Media {
+	for _, m := range media {
 		for i, r := range m.Rows {
 			fmt.Printf("log %s[%d] id=%s %s gen=%d step=%d ik=%q data=%s\n", m.Name, i, r.ID, r.Type, r.Gen, r.Step, r.IK, r.Data)
 		}
